@@ -71,6 +71,16 @@ def digest(obj) -> int:
     return int.from_bytes(hashlib.blake2b(repr(obj).encode(), digest_size=8).digest(), "big")
 
 
+RECHECK_K = 12
+
+
+def result_digest(r: "CaseResult") -> str:
+    """what a case produced, for the fresh-process determinism control"""
+    return hashlib.sha1(json.dumps([sorted(r.outcomes.items()), sorted(r.counters.items()),
+                                    [(f.clause, f.detail) for f in r.fails], r.skipped, r.nontrivial],
+                                   sort_keys=True, default=str).encode()).hexdigest()[:16]
+
+
 class CaseTimeout(Exception):
     pass
 
@@ -111,6 +121,8 @@ def _run_chunk(arg):
             agg["n"] += 1
             continue
         agg["n"] += 1
+        if idx < RECHECK_K:
+            agg.setdefault("digests", {})[idx] = result_digest(r)
         agg["counters"].update(r.counters)
         agg["outcomes"].update(r.outcomes)
         for k, s in r.distinct.items():
@@ -204,12 +216,34 @@ def run(modname: str, tier: str, seed: int, workers: Optional[int] = None, limit
         agg["fails"].extend(p["fails"]); agg["n"] += p["n"]; agg["nontrivial"] += p["nontrivial"]
         agg["skipped"].update(p["skipped"]); agg["timeouts"] += p["timeouts"]
         agg["errors"].extend(p["errors"]); agg["samples"].extend(p["samples"])
+        agg.setdefault("digests", {}).update(p.get("digests", {}))
     agg["fails"].sort(key=lambda f: f["index"])
     agg["samples"].sort(key=lambda c: json.dumps(c, sort_keys=True, default=str))
     agg["cases"] = cases
     extra: Dict[str, Any] = {}
     if hasattr(mod, "finish"):
         extra = mod.finish(agg, tier) or {}
+
+    # determinism control (DESIGN §2.9): the first cases are re-run in a FRESH process; a different outcome is a
+    # harness error (exit 2), never a violation
+    nondeterministic = []
+    if not os.environ.get("PV_NO_RECHECK") and not limit and agg.get("digests"):
+        import subprocess
+        k = min(RECHECK_K, total)
+        p = subprocess.run([sys.executable, "-m", "pv.cli", prop, "--tier", tier, "--recheck", str(k)],
+                           capture_output=True, text=True, cwd=VERIF,
+                           env=dict(os.environ, PYTHONHASHSEED="0", PV_REEXEC="1", PV_NO_RECHECK="1"))
+        try:
+            again = json.loads(p.stdout.strip().splitlines()[-1])
+            for i_s, dg in again.items():
+                if agg["digests"].get(int(i_s)) != dg:
+                    nondeterministic.append(int(i_s))
+        except Exception:
+            nondeterministic.append(-1)
+        if nondeterministic:
+            agg["errors"].append({"index": nondeterministic[0], "case": None,
+                                  "trace": f"determinism control failed: cases {nondeterministic} gave a different outcome in a "
+                                           f"fresh process\n{p.stderr[-500:]}"})
 
     findings = load_findings(prop)
     known_hits: Dict[str, int] = Counter()
@@ -261,6 +295,7 @@ def run(modname: str, tier: str, seed: int, workers: Optional[int] = None, limit
         "masked_by_known_findings": int(sum(known_hits.values())),
         "samples": agg["samples"][:5] or cases[:1],
         "workers": workers,
+        "fresh_process_recheck": {"cases": min(RECHECK_K, total), "mismatches": len(nondeterministic)},
     }
     coverage.update(extra)
     ev = {
@@ -284,6 +319,24 @@ def run(modname: str, tier: str, seed: int, workers: Optional[int] = None, limit
         return 1
     if agg["errors"]:
         return 2
+    return 0
+
+
+def recheck(modname: str, tier: str, k: int) -> int:
+    """fresh-process re-run of the first k cases; prints {index: digest}"""
+    mod = _load(modname)
+    out = {}
+    signal.signal(signal.SIGALRM, _alarm)
+    for i, case in enumerate(mod.cases(tier)):
+        if i >= k:
+            break
+        signal.alarm(getattr(mod, "CASE_TIMEOUT", 20))
+        try:
+            out[i] = result_digest(mod.check_case(case))
+        except Exception as e:  # noqa
+            out[i] = f"raised:{type(e).__name__}"
+        signal.alarm(0)
+    print(json.dumps(out))
     return 0
 
 
